@@ -1,13 +1,17 @@
 #!/venv/bin/python
 """Development tool: every seeded (breaking) change applied ON TOP OF every behaviour-preserving refactoring, wherever both
 patches apply to the same scratch copy; the check of the property the seeded change breaks must still report it.  Guards
-against buying silence on the refactorings at the price of detection.   usage: tools/cross_check.py [--jobs N]"""
+against buying silence on the refactorings at the price of detection.   usage: tools/cross_check.py [--jobs N] [--equivs REGEX]"""
 import json, os, shutil, subprocess, sys, tempfile
 from concurrent.futures import ThreadPoolExecutor
 V = os.path.dirname(os.path.dirname(os.path.abspath(__file__)))  # the tree this tool lives in (a `vp run` snapshot runs its own copy)
 jobs = int(sys.argv[sys.argv.index('--jobs') + 1]) if '--jobs' in sys.argv else 10
 equivs = sorted(n for n in os.listdir(f'{V}/equiv') if os.path.exists(f'{V}/equiv/{n}/patch.diff'))
 seeds = sorted(n for n in os.listdir(f'{V}/seeded') if os.path.exists(f'{V}/seeded/{n}/meta.json'))
+if '--equivs' in sys.argv:  # restrict the refactorings to names matching a regular expression (e.g. one round: 'C..u-')
+    import re
+    pat = re.compile(sys.argv[sys.argv.index('--equivs') + 1])
+    equivs = [e for e in equivs if pat.match(e)]
 def one(job):
     e, s = job
     pid = json.load(open(f'{V}/seeded/{s}/meta.json'))['breaks_property']
